@@ -82,6 +82,10 @@ def explore(tier='quick'):
                     return dict(reproduced=True, level='api', summary=f'{a}->{b}: cache hit for {k} returned {second[k][0]!r}, stored {first[k][0]!r}')
                 if first[k][1] != second[k][1]:
                     return dict(reproduced=True, level='api', summary=f'{a}->{b}: result_meta of {k} differs after load: {second[k][1]} vs recorded {first[k][1]}')
+    # the storage location is fixed when the Lab is built: a relative directory plus a later change of the working directory
+    why = relative_root_then_chdir()
+    if why:
+        return dict(reproduced=True, level='api', summary=why)
     # bounded floating-point clause
     bad = []
     cands = [timedelta(0), timedelta(microseconds=1), timedelta(microseconds=999999), timedelta(seconds=1, microseconds=1),
@@ -93,6 +97,52 @@ def explore(tier='quick'):
     if bad:
         return dict(reproduced=True, level='function', summary=f'timedelta(seconds=td.total_seconds()) != td for {bad[:3]} (stored duration does not round-trip)', bounded=True)
     return dict(reproduced=False, level='api', pairs=n, durations_checked=len(cands))
+
+
+REL_CHILD = r"""
+import json, logging, os, sys
+import labtech
+logging.getLogger('labtech').setLevel(logging.CRITICAL)
+marks = sys.argv[1]
+
+@labtech.task
+class Rel:
+    n: int
+    def run(self):
+        open(os.path.join(marks, f'{self.n}-{os.getpid()}-{len(os.listdir(marks))}'), 'w').close()
+        return {'n': self.n}
+
+os.chdir(sys.argv[2])
+lab = labtech.Lab(storage='relstore', runner_backend='serial')
+t = Rel(5)
+first = lab.run_tasks([t], disable_progress=True, disable_top=True)[t]
+ran1 = len(os.listdir(marks))
+os.chdir(sys.argv[3])                      # the caller moves on (notebook cell, driver script)
+cached = lab.is_cached(t)
+try:
+    second = lab.run_tasks([t], disable_progress=True, disable_top=True).get(t)
+except Exception as ex:
+    second = f'raised {type(ex).__name__}'
+print(json.dumps(dict(cached=cached, ran_again=len(os.listdir(marks)) - ran1, same=(second == first))))
+"""
+
+
+def relative_root_then_chdir():
+    with tempfile.TemporaryDirectory() as top:
+        a, b, marks = (os.path.join(top, x) for x in ('a', 'b', 'marks'))
+        for x in (a, b, marks):
+            os.mkdir(x)
+        script = os.path.join(top, 'c06_rel.py')
+        open(script, 'w').write(REL_CHILD)
+        env = dict(os.environ)
+        cp = subprocess.run([sys.executable, script, marks, a, b], capture_output=True, text=True, env=env, timeout=120)
+        if cp.returncode != 0:
+            raise RuntimeError(cp.stderr[-800:])
+        r = json.loads(cp.stdout.strip().splitlines()[-1])
+        if not r['cached'] or r['ran_again'] or not r['same']:
+            return (f"Lab(storage='relstore') built in directory a, task executed and cached, then os.chdir(b): is_cached={r['cached']}, "
+                    f"run() called again {r['ran_again']} time(s), stored value returned={r['same']} (the storage root followed the working directory)")
+    return None
 
 
 def main():
@@ -108,7 +158,7 @@ def main():
         res = dict(reproduced=False, error=traceback.format_exc()[-1500:])
     if a.obligation or True:
         if not a.obligation:
-            print(json.dumps([dict(name='c06:two-run-cache-hit', bounded=True, bound='2-4 backend pairs x 6 tasks, fresh interpreter; 400 edge durations', violation=bool(res.get('reproduced')), witness=[res] if res.get('reproduced') else [])], default=str))
+            print(json.dumps([dict(name='c06:two-run-cache-hit', bounded=True, bound='2-4 backend pairs x 6 tasks, fresh interpreter; relative storage directory + chdir; 400 edge durations', violation=bool(res.get('reproduced')), witness=[res] if res.get('reproduced') else [])], default=str))
         else:
             print(json.dumps(res, default=str))
     return 1 if res.get('reproduced') else 0
